@@ -211,97 +211,121 @@ Proof.
   destruct (Z.ltb_spec (ps_lfb s - count) (pr_walk tl r)); [discriminate|]. intros E. inversion E. subst. lia.
 Qed.
 
-Definition pr_inv (count : Z) (s : pr_state) : Prop :=
-  (* blocks are in round order below the LFB, the latest one is the LFB *)
+Definition pr_inv (s : pr_state) : Prop :=
+  (* the chain is below the LFB and its latest block is the LFB *)
   (forall b, In b (ps_blocks s) -> pb_round b <= ps_lfb s) /\
   (match ps_blocks s with b :: _ => pb_round b = ps_lfb s | [] => True end) /\
-  (* dead records are not younger than the LFB, and hold nothing younger than their round *)
-  (forall r ds, In (r, ds) (ps_dead s) -> r <= ps_lfb s /\ forall h, In h ds -> fst h <= r) /\
-  (* what was recorded dead at round r is not part of any finalized state at or after r *)
+  (* a dead-node record holds nothing younger than its round *)
+  (forall r ds, In (r, ds) (ps_dead s) -> forall h, In h ds -> fst h <= r) /\
+  (* what is recorded dead at round r is not part of any state of the chain at or after r *)
   (forall r ds b, In (r, ds) (ps_dead s) -> In b (ps_blocks s) -> r <= pb_round b ->
      forall h, In h ds -> ~ In h (pb_nodes b)) /\
-  (* every block within count rounds of the LFB has its whole state in the node DB *)
-  (forall b, In b (ps_blocks s) -> ps_lfb s - count <= pb_round b ->
-     forall h, In h (pb_nodes b) -> In h (ps_db s)).
+  (* every block of the chain at or above everything pruned so far has its whole state in the DB *)
+  (forall b, In b (ps_blocks s) -> ps_pruned s <= pb_round b ->
+     forall h, In h (pb_nodes b) -> In h (ps_db s)) /\
+  ps_pruned s <= ps_lfb s.
 
-Lemma pr_inv_init count lfb : pr_inv count (pr_init lfb).
+Lemma pr_inv_init lfb : pr_inv (pr_init lfb).
 Proof.
-  unfold pr_inv, pr_init. cbn. repeat split; intros; try contradiction; auto.
+  unfold pr_inv, pr_init. cbn. repeat split; intros; try contradiction; auto; lia.
 Qed.
 
 Lemma pr_adds_origin r ids h : In h (pr_adds r ids) -> fst h = r.
 Proof. unfold pr_adds. rewrite in_map_iff. intros (i & <- & _). reflexivity. Qed.
 
-Lemma pr_inv_block count s r ids dels nodes : 0 <= count -> pr_inv count s ->
+Lemma pr_inv_block s r ids dels nodes : pr_inv s ->
   pr_op_ok s (OpBlock r ids dels nodes) = true ->
-  pr_inv count (pr_finalize s r (pr_adds r ids) dels nodes).
+  pr_inv (pr_finalize s r (pr_adds r ids) dels nodes).
 Proof.
-  intros Hc (Hle & Hhd & Hdead & Hdis & Hdb) Hok. cbn [pr_op_ok] in Hok.
+  intros (Hle & Hhd & Horg & Hdis & Hdb & Hpl) Hok. cbn [pr_op_ok] in Hok.
   apply andb_prop in Hok. destruct Hok as [Hok Hdo]. apply andb_prop in Hok. destruct Hok as [Hok Hdj].
-  apply andb_prop in Hok. destruct Hok as [Hr Hnodes].
-  apply Z.ltb_lt in Hr. rewrite forallb_forall in Hnodes, Hdo.
+  apply andb_prop in Hok. destruct Hok as [Hok Hnodes]. apply andb_prop in Hok. destruct Hok as [Hr Hstale].
+  apply Z.ltb_lt in Hr. rewrite forallb_forall in Hnodes, Hdo, Hstale.
   assert (Hdj' := proj1 (pr_disjoint_in _ _) Hdj).
-  unfold pr_inv, pr_finalize. cbn [ps_db ps_dead ps_ring ps_lfb ps_blocks].
-  split; [|split; [|split; [|split]]].
+  unfold pr_inv, pr_finalize. cbn [ps_db ps_dead ps_ring ps_lfb ps_blocks ps_pruned].
+  split; [|split; [|split; [|split; [|split]]]].
   - intros b [<-|Hb]; cbn; [lia|]. specialize (Hle b Hb). lia.
   - reflexivity.
-  - intros r0 ds [E|Hin].
-    + inversion E. subst. split; [lia|]. intros h Hh. specialize (Hdo h Hh). lia.
-    + apply filter_In in Hin. destruct Hin as [Hin _]. destruct (Hdead r0 ds Hin) as [H1 H2]. split; [lia|exact H2].
+  - intros r0 ds [E|Hin] h Hh.
+    + inversion E. subst. specialize (Hdo h Hh). lia.
+    + apply filter_In in Hin. destruct Hin as [Hin _]. eapply Horg; eauto.
   - intros r0 ds b [E|Hin] Hb Hrb h Hh.
     + inversion E. subst r0 ds. destruct Hb as [<-|Hb]; cbn [pb_nodes pb_round] in *.
       * apply Hdj'. exact Hh.
       * specialize (Hle b Hb). lia.
-    + apply filter_In in Hin. destruct Hin as [Hin _]. destruct (Hdead r0 ds Hin) as [Hr0 Horg].
+    + apply filter_In in Hin. destruct Hin as [Hin Hne]. apply negb_true_iff, Z.eqb_neq in Hne. cbn [fst] in Hne.
       destruct Hb as [<-|Hb]; cbn [pb_nodes pb_round] in *; [|eapply Hdis; eauto].
+      (* an older record against the new block: it is not a stale record of a later round *)
+      specialize (Hstale (r0, ds) Hin). cbn [fst] in Hstale.
+      assert (Hr0 : r0 <= ps_lfb s) by lia.
       intros Hn. specialize (Hnodes h Hn). apply orb_prop in Hnodes. destruct Hnodes as [Hp|Ha].
       * apply pr_mem_in in Hp. unfold pr_prev_nodes in Hp. destruct (ps_blocks s) as [|pb tl] eqn:Eb; [destruct Hp|].
         apply (Hdis r0 ds pb Hin ltac:(left; reflexivity) ltac:(lia) h Hh Hp).
-      * apply pr_mem_in in Ha. apply pr_adds_origin in Ha. specialize (Horg h Hh). lia.
+      * apply pr_mem_in in Ha. apply pr_adds_origin in Ha. specialize (Horg r0 ds Hin h Hh). lia.
   - intros b [<-|Hb] Hret h Hh; cbn [pb_nodes pb_round] in *.
     + specialize (Hnodes h Hh). apply orb_prop in Hnodes. apply in_or_app. destruct Hnodes as [Hp|Ha].
       * right. apply pr_mem_in in Hp. unfold pr_prev_nodes in Hp. destruct (ps_blocks s) as [|pb tl] eqn:Eb; [destruct Hp|].
         apply (Hdb pb ltac:(left; reflexivity) ltac:(lia) h Hp).
       * left. apply pr_mem_in. exact Ha.
     + apply in_or_app. right. apply (Hdb b Hb); [lia|exact Hh].
+  - lia.
 Qed.
 
-Lemma pr_inv_prune_below count s v : pr_inv count s -> v <= ps_lfb s - count ->
-  pr_inv count (pr_prune_below s v).
+Lemma pr_inv_prune_below count s v : 0 <= count -> pr_inv s -> v <= ps_lfb s - count ->
+  pr_inv (pr_prune_below s v).
 Proof.
-  intros (Hle & Hhd & Hdead & Hdis & Hdb) Hv. unfold pr_inv, pr_prune_below. cbn [ps_db ps_dead ps_ring ps_lfb ps_blocks].
-  split; [exact Hle|]. split; [exact Hhd|]. split; [|split].
-  - intros r ds Hin. apply filter_In in Hin. destruct Hin as [Hin _]. auto.
+  intros Hc (Hle & Hhd & Horg & Hdis & Hdb & Hpl) Hv. unfold pr_inv, pr_prune_below.
+  cbn [ps_db ps_dead ps_ring ps_lfb ps_blocks ps_pruned].
+  split; [exact Hle|]. split; [exact Hhd|]. split; [|split; [|split]].
+  - intros r ds Hin. apply filter_In in Hin. destruct Hin as [Hin _]. eauto.
   - intros r ds b Hin. apply filter_In in Hin. destruct Hin as [Hin _]. eauto.
-  - intros b Hb Hret h Hh. apply pr_diff_in. split; [apply (Hdb b Hb Hret h Hh)|].
+  - intros b Hb Hret h Hh. apply pr_diff_in. split; [apply (Hdb b Hb ltac:(lia) h Hh)|].
     intros Hg. apply in_flat_map in Hg. destruct Hg as ([r ds] & Hin & Hh'). cbn [fst snd] in Hh'.
     destruct (Z.ltb_spec r v); [|destruct Hh'].
     apply (Hdis r ds b Hin Hb ltac:(lia) h Hh' Hh).
+  - lia.
 Qed.
 
-Lemma pr_inv_step count s o : 0 <= count -> pr_inv count s -> pr_op_ok s o = true -> pr_inv count (pr_apply count s o).
+Lemma pr_inv_rollback s r0 : pr_inv s -> pr_op_ok s (OpRollback r0) = true -> pr_inv (pr_rollback s r0).
 Proof.
-  intros Hc Hinv Hok. destruct o as [r ids dels nodes|]; cbn [pr_apply].
+  intros (Hle & Hhd & Horg & Hdis & Hdb & Hpl) Hok. cbn [pr_op_ok] in Hok.
+  apply andb_prop in Hok. destruct Hok as [Hok Hhead]. apply andb_prop in Hok. destruct Hok as [Hp Hr].
+  unfold pr_inv, pr_rollback. cbn [ps_db ps_dead ps_ring ps_lfb ps_blocks ps_pruned].
+  split; [|split; [|split; [|split; [|split]]]].
+  - intros b Hb. apply filter_In in Hb. destruct Hb as [_ Hb]. lia.
+  - destruct (filter _ (ps_blocks s)); [exact I|]. lia.
+  - exact Horg.
+  - intros r ds b Hin Hb. apply filter_In in Hb. destruct Hb as [Hb _]. eauto.
+  - intros b Hb. apply filter_In in Hb. destruct Hb as [Hb _]. eauto.
+  - lia.
+Qed.
+
+Lemma pr_inv_step count s o : 0 <= count -> pr_inv s -> pr_op_ok s o = true -> pr_inv (pr_apply count s o).
+Proof.
+  intros Hc Hinv Hok. destruct o as [r ids dels nodes| |r0]; cbn [pr_apply].
   - apply pr_inv_block; assumption.
   - unfold pr_prune. destruct (pr_version s count) as [v|] eqn:E; [|exact Hinv].
-    apply pr_inv_prune_below; [exact Hinv|]. apply pr_version_bound. exact E.
+    apply (pr_inv_prune_below count); [exact Hc|exact Hinv|]. apply pr_version_bound. exact E.
+  - apply pr_inv_rollback; assumption.
 Qed.
 
-Lemma pr_inv_run count ops : forall s, 0 <= count -> pr_inv count s -> pr_ops_ok count s ops = true ->
-  pr_inv count (pr_run count s ops).
+Lemma pr_inv_run count ops : forall s, 0 <= count -> pr_inv s -> pr_ops_ok count s ops = true ->
+  pr_inv (pr_run count s ops).
 Proof.
   induction ops as [|o ops IH]; intros s Hc Hinv Hok; [exact Hinv|].
   cbn [pr_ops_ok] in Hok. apply andb_prop in Hok. destruct Hok as [H1 H2].
-  unfold pr_run. cbn [fold_left]. apply IH; [exact Hc|apply pr_inv_step; assumption|exact H2].
+  unfold pr_run. cbn [fold_left]. apply IH; [exact Hc|apply (pr_inv_step count); assumption|exact H2].
 Qed.
 
-(* C27 prune_safe: after any history of finalized blocks and prunes, the whole state of every
-   finalized block within count rounds of the latest finalized block is in the node DB *)
+(* C27 prune_safe: after any history of finalized blocks, prunes and roll backs (a round can be
+   finalized again with another block), the whole state of every block of the finalized chain
+   that is not below a pruned version is in the node DB *)
 Theorem pr_prune_safe count lfb0 ops : 0 <= count -> pr_ops_ok count (pr_init lfb0) ops = true ->
   let s := pr_run count (pr_init lfb0) ops in
-  forall b, In b (ps_blocks s) -> ps_lfb s - count <= pb_round b -> pr_readable s b = true.
+  forall b, In b (ps_blocks s) -> ps_pruned s <= pb_round b -> pr_readable s b = true.
 Proof.
   intros Hc Hok s b Hb Hret. unfold pr_readable. apply pr_subset_in.
-  destruct (pr_inv_run count ops (pr_init lfb0) Hc (pr_inv_init count lfb0) Hok) as (_ & _ & _ & _ & Hdb).
+  destruct (pr_inv_run count ops (pr_init lfb0) Hc (pr_inv_init lfb0) Hok) as (_ & _ & _ & _ & Hdb & _).
   apply (Hdb b Hb Hret).
 Qed.
+
